@@ -138,6 +138,7 @@ class Program:
                 heads = [rt] if rt else []
             elif rt and rt != head:
                 heads.append(rt)
+            heads += ['&' + h for h in heads if not h.startswith('&')]
             for h in heads:
                 c = [f for f in self.by_short.get(method, []) if self.header(f)[1] == h and self._trait_ok(self.header(f)[0], trait)]
                 if len(c) == 1: return c[0]
